@@ -4,10 +4,11 @@ Only property theorems live here (helper lemmas: `Lemmas/Join.lean`).
 -/
 import Bermuda.Lemmas.Join
 import Bermuda.Lemmas.JoinSpec
+import Bermuda.Lemmas.JoinRegroup
 import Bermuda.Properties.C01
 namespace Bermuda.Properties.C10
 open Bermuda List Bermuda.JoinL
-open Bermuda.Properties.C01 (ofCells_perm ofCells_sorted ofCells_ok_iff ofCells_idem Canonical kindsConsistent_perm)
+open Bermuda.Properties.C01 (ofCells_perm ofCells_sorted ofCells_ok_iff ofCells_idem Canonical kindsConsistent_perm ofCells_perm_invariant)
 
 /-! ### 1. join: the returned coordinates are the relational set expression -/
 
@@ -990,11 +991,250 @@ example : exA.map (pmCell [exB[0]!] (some "_r")) =
       exCell exUS ⟨2022, 12, 31⟩ [("paid_loss", .int 2), ("earned_premium", .int 10),
         ("paid_loss_r", .int 7), ("reported_loss_r", .int 9)] ] := by decide +kernel
 
-/-! ### 10. statements not proved here (kept visible; checked by the differential run only) -/
+/-! ### 10. the regrouping loops of `add_statics` / `period_merge` (literal model = direct model) -/
 
--- OPEN addStatics_regrouping
--- the literal Python loop (`triangle.slices` → concatenate per slice → `Triangle(...)`) equals
--- `Triangle.ofCells (t.map (addStaticsCell src st))` for EVERY cell list `t` (for sorted `t` both are
--- `t.map …` by `addStatics_eq_map`); same for the regrouping by index inside `period_merge`.
+theorem cmp_frame {f : Cell → Cell} (hf : ∀ c, f c = { c with values := (f c).values }) (a b : Cell) :
+    Cell.cmp (f a) (f b) = Cell.cmp a b := by rw [hf a, hf b]; rfl
+
+/-- cells that tie under `Cell.__lt__` are identical when coordinates are distinct -/
+theorem ties_identical_map {f : Cell → Cell} (hf : ∀ c, f c = { c with values := (f c).values })
+    {t : List Cell} (hc : ∀ c ∈ t, c.md.Canon) (hn : (t.map Cell.coord).Nodup) :
+    ∀ a b, a ∈ t.map f → b ∈ t.map f → Cell.cmp a b = .eq → a = b := by
+  intro a b ha hb hab
+  obtain ⟨a0, ha0, rfl⟩ := List.mem_map.mp ha
+  obtain ⟨b0, hb0, rfl⟩ := List.mem_map.mp hb
+  rw [cmp_frame hf] at hab
+  have := (Cell.cmp_eq_eq (hc a0 ha0) (hc b0 hb0)).mp hab
+  rw [inj_of_nodup_map hn ha0 hb0 this]
+
+theorem addStatics_block {src : List Cell} (st : List String)
+    (hs : src.Pairwise (fun a b => Cell.le a b)) {blk : List Cell} {m : Metadata}
+    (hblk : ∀ c ∈ blk, c.md = m) :
+    addStaticsBlockLit (Triangle.slices src) st (m, blk) = blk.map (addStaticsCell src st) := by
+  unfold addStaticsBlockLit
+  simp only []
+  rw [slices_eq, find?_map_key]
+  by_cases hm : m ∈ firstKeys (fun c : Cell => c.md) src
+  · rw [if_pos hm]
+    simp only []
+    rw [slice_sorted hs]
+    unfold addStaticsSliceLit
+    apply List.map_congr_left
+    intro c hc
+    have hcm := hblk c hc
+    subst hcm
+    rw [sourceIndexedGet_eq]
+    rfl
+  · rw [if_neg hm]
+    simp only []
+    conv => lhs; rw [← List.map_id blk]
+    apply List.map_congr_left
+    intro c hc
+    have hnone : sourceCell? src c = none := by
+      unfold sourceCell?
+      have : src.filter (fun s => s.md == c.md && s.ps == c.ps && s.pe == c.pe) = [] := by
+        rw [List.filter_eq_nil_iff]
+        intro s hsm hcond
+        simp only [Bool.and_eq_true, beq_iff_eq] at hcond
+        exact hm ((mem_firstKeys _ src m).mpr ⟨s, hsm, hcond.1.1.trans (hblk c hc)⟩)
+      rw [this]; simp [lastBy?]
+    unfold addStaticsCell; rw [hnone]; rfl
+
+/-- **addStatics_regrouping**: the literal loop of `add_statics` (per slice of the triangle, source
+slice looked up by metadata, source rows grouped by period, concatenation, `Triangle(...)`) returns
+what the direct form `addStatics` returns — for a triangle with canonical metadata and distinct
+coordinates and a sorted source (what `Triangle.cells` always is). -/
+theorem addStaticsLit_eq {t src : List Cell} {st : List String} (hc : ∀ c ∈ t, c.md.Canon)
+    (hn : (t.map Cell.coord).Nodup) (hs : src.Pairwise (fun a b => Cell.le a b)) :
+    addStaticsLit t src st = addStatics t src st := by
+  unfold addStaticsLit addStatics
+  symm
+  apply ofCells_perm_invariant _ (ties_identical_map (addStaticsCell_frame src st) hc hn)
+  rw [slices_eq t, List.flatMap_map]
+  refine List.Perm.symm (List.Perm.trans (perm_flatMap_blocks
+    (g := fun m => (t.filter (fun c : Cell => c.md == m)).map (addStaticsCell src st)) ?_) ?_)
+  · intro m _
+    have hmem : ∀ c ∈ (t.filter (fun c : Cell => c.md == m)).mergeSort Cell.le, c.md = m := by
+      intro c hc'
+      have := (List.mergeSort_perm _ _).mem_iff.mp hc'
+      simpa using (List.mem_filter.mp this).2
+    rw [addStatics_block st hs hmem]
+    exact (List.mergeSort_perm _ _).map _
+  · rw [← List.map_flatMap]
+    exact (flatMap_filter_perm (fun c : Cell => c.md) _ t (firstKeys_nodup _ t)
+      (fun a ha => (mem_firstKeys _ t _).mpr ⟨a, ha, rfl⟩)).map _
+
+theorem periodMergeCell_of_le {b : List Cell} {suffix : Option String} {c : Cell}
+    (h : (b.filter (samePeriodKey c)).length ≤ 1) :
+    periodMergeCell b suffix c = .ok (pmCell b suffix c) := by
+  unfold periodMergeCell pmCell
+  match hf : b.filter (samePeriodKey c), h with
+  | [], _ => rfl
+  | [r], _ => rfl
+  | _ :: _ :: _, h => simp at h
+
+theorem periodMergeCell_of_gt {b : List Cell} {suffix : Option String} {c : Cell}
+    (h : ¬ (b.filter (samePeriodKey c)).length ≤ 1) :
+    periodMergeCell b suffix c = .error .valueError := by
+  unfold periodMergeCell
+  match hf : b.filter (samePeriodKey c), h with
+  | [], h => simp at h
+  | [r], h => simp at h
+  | _ :: _ :: _, _ => rfl
+
+theorem periodMergeCell_error {b : List Cell} {suffix : Option String} {c : Cell} {e : Err}
+    (h : periodMergeCell b suffix c = .error e) : e = .valueError := by
+  unfold periodMergeCell at h
+  split at h <;> cases h
+  rfl
+
+/-- one group of the literal loop = the cell-wise map on the group -/
+theorem periodMergeGroupLit_spec (b : List Cell) (suffix : Option String)
+    (k : Date × Date × Metadata) (row : List Cell) (hrow : ∀ c ∈ row, pmIdx c = k) :
+    periodMergeGroupLit (groupBy pmIdx b) suffix (k, row) =
+      if (b.filter (fun r => pmIdx r == k)).length ≤ 1 then .ok (row.map (pmCell b suffix))
+      else .error .valueError := by
+  unfold periodMergeGroupLit
+  simp only []
+  rw [groupGet_groupBy]
+  have hcell : ∀ c ∈ row, b.filter (samePeriodKey c) = b.filter (fun r => pmIdx r == k) := by
+    intro c hc; rw [filter_samePeriodKey, hrow c hc]
+  match hf : b.filter (fun r => pmIdx r == k) with
+  | [] =>
+    simp only [List.length_nil, Nat.zero_le, if_true]
+    congr 1
+    conv => lhs; rw [← List.map_id row]
+    apply List.map_congr_left
+    intro c hc
+    unfold pmCell; rw [hcell c hc, hf]; rfl
+  | [r] =>
+    simp only [List.length_singleton, Nat.le_refl, if_true]
+    congr 1
+    apply List.map_congr_left
+    intro c hc
+    unfold pmCell; rw [hcell c hc, hf]
+  | _ :: _ :: _ => simp
+
+
+theorem periodMergeLit_unfold (a b : List Cell) (suffix : Option String) :
+    periodMergeLit a b suffix =
+      if kindMismatch a b then .error .valueError
+      else Except.bind ((groupBy pmIdx a).mapM (periodMergeGroupLit (groupBy pmIdx b) suffix))
+        (fun out => Triangle.ofCells out.flatten) := by
+  unfold periodMergeLit
+  by_cases h : kindMismatch a b = true
+  · simp [h, bind, Except.bind, throw, throwThe, MonadExceptOf.throw]
+  · simp only [h, bind, Except.bind]
+    rfl
+
+theorem periodMerge_unfold (a b : List Cell) (suffix : Option String) :
+    periodMerge a b suffix =
+      if kindMismatch a b then .error .valueError
+      else Except.bind (a.mapM (periodMergeCell b suffix)) Triangle.ofCells := by
+  unfold periodMerge
+  by_cases h : kindMismatch a b = true
+  · simp [h, bind, Except.bind, throw, throwThe, MonadExceptOf.throw]
+  · simp only [h, bind, Except.bind]
+    rfl
+
+/-- **periodMerge regrouping**: the literal loop of `period_merge` (two `defaultdict(list)` keyed by
+(period, metadata), left groups visited in insertion order, concatenation, `Triangle(...)`) returns
+what the direct form `periodMerge` returns — same result, same `ValueError` — for a left triangle
+with canonical metadata and distinct coordinates. -/
+theorem periodMergeLit_eq {a b : List Cell} {suffix : Option String} (hc : ∀ c ∈ a, c.md.Canon)
+    (hn : (a.map Cell.coord).Nodup) : periodMergeLit a b suffix = periodMerge a b suffix := by
+  rw [periodMergeLit_unfold, periodMerge_unfold]
+  split
+  · rfl
+  · have hg : groupBy pmIdx a =
+        (firstKeys pmIdx a).map (fun k => (k, a.filter (fun c => pmIdx c == k))) := groupBy_eq_map pmIdx a
+    have hentry : ∀ e ∈ groupBy pmIdx a,
+        periodMergeGroupLit (groupBy pmIdx b) suffix e =
+          if (b.filter (fun r => pmIdx r == e.1)).length ≤ 1 then .ok (e.2.map (pmCell b suffix))
+          else .error .valueError := by
+      intro e he
+      have h2 := groupBy_entry pmIdx a he
+      have := periodMergeGroupLit_spec b suffix e.1 e.2 (fun c hc' => by
+        rw [h2] at hc'; simpa using (List.mem_filter.mp hc').2)
+      exact this
+    by_cases hall : ∀ c ∈ a, (b.filter (samePeriodKey c)).length ≤ 1
+    · -- no index with several right cells: both succeed, results are permutations
+      have hflat : a.mapM (periodMergeCell b suffix) = .ok (a.map (pmCell b suffix)) :=
+        mapM_ok_of_all (fun c hc' => periodMergeCell_of_le (hall c hc'))
+      have hlit : (groupBy pmIdx a).mapM (periodMergeGroupLit (groupBy pmIdx b) suffix) =
+          .ok ((groupBy pmIdx a).map (fun e => e.2.map (pmCell b suffix))) := by
+        apply mapM_ok_of_all
+        intro e he
+        rw [hentry e he, if_pos]
+        have h2 := groupBy_entry pmIdx a he
+        have hne : e.2 ≠ [] ∨ e.2 = [] := by cases e.2 <;> simp
+        -- pick any cell of the group to transfer the bound
+        have hk : ∀ c ∈ e.2, pmIdx c = e.1 := fun c hc' => by
+          rw [h2] at hc'; simpa using (List.mem_filter.mp hc').2
+        have hmemk : e.1 ∈ firstKeys pmIdx a := by
+          rw [← groupBy_keys]; exact List.mem_map.mpr ⟨e, he, rfl⟩
+        obtain ⟨c, hca, hck⟩ := (mem_firstKeys pmIdx a e.1).mp hmemk
+        have := hall c hca
+        rw [filter_samePeriodKey, hck] at this
+        exact this
+      rw [hflat, hlit]
+      simp only [Except.bind]
+      symm
+      apply ofCells_perm_invariant _ (ties_identical_map (pmCell_frame b suffix) hc hn)
+      rw [hg, List.map_map, ← List.flatMap_def]
+      refine List.Perm.symm ?_
+      show ((firstKeys pmIdx a).flatMap
+        (fun k => (a.filter (fun c => pmIdx c == k)).map (pmCell b suffix))).Perm _
+      rw [← List.map_flatMap]
+      exact (flatMap_filter_perm pmIdx _ a (firstKeys_nodup _ a)
+        (fun x hx => (mem_firstKeys _ a _).mpr ⟨x, hx, rfl⟩)).map _
+    · -- some index has several right cells: both raise ValueError
+      have hex : ∃ c ∈ a, ¬ (b.filter (samePeriodKey c)).length ≤ 1 := by
+        apply Classical.byContradiction
+        intro hcon
+        apply hall
+        intro c hc'
+        apply Classical.byContradiction
+        intro hgt
+        exact hcon ⟨c, hc', hgt⟩
+      obtain ⟨c, hca, hgt⟩ := hex
+      have hflat : a.mapM (periodMergeCell b suffix) = .error .valueError :=
+        mapM_error (fun x _ e' he' => periodMergeCell_error he')
+          ⟨c, hca, _, periodMergeCell_of_gt hgt⟩
+      have hlit : (groupBy pmIdx a).mapM (periodMergeGroupLit (groupBy pmIdx b) suffix) =
+          .error .valueError := by
+        apply mapM_error
+        · intro e he e' he'
+          rw [hentry e he] at he'
+          split at he' <;> cases he'
+          rfl
+        · have hmemk : pmIdx c ∈ firstKeys pmIdx a := (mem_firstKeys pmIdx a _).mpr ⟨c, hca, rfl⟩
+          rw [← groupBy_keys] at hmemk
+          obtain ⟨e, he, hek⟩ := List.mem_map.mp hmemk
+          refine ⟨e, he, .valueError, ?_⟩
+          rw [hentry e he, if_neg]
+          rw [hek, ← filter_samePeriodKey]
+          exact hgt
+      rw [hflat, hlit]
+      rfl
+
+/-- so every statement about `addStatics` holds of the literal loop, e.g. the Spec bridge -/
+theorem addStaticsSpec_of_addStaticsLit {t src out : List Cell} {st : List String} (ht : Canonical t)
+    (hc : ∀ c ∈ t, c.md.Canon) (hs : src.Pairwise (fun a b => Cell.le a b))
+    (hyp : Spec.addStaticsHyp t src = true) (hv : ∀ c ∈ t ++ src, c.values.WF)
+    (h : addStaticsLit t src st = .ok out) : Spec.addStaticsSpec t src st out = true := by
+  have hn : (t.map Cell.coord).Nodup := by
+    unfold Spec.addStaticsHyp Spec.leftHyp at hyp
+    simp only [Bool.and_eq_true, nodupB_iff] at hyp
+    exact hyp.1
+  rw [addStaticsLit_eq hc hn hs] at h
+  exact addStaticsSpec_of_addStatics ht hyp hv h
+
+theorem periodMergeSpec_of_periodMergeLit {a b out : List Cell} {suffix : Option String}
+    (ha : Canonical a) (hc : ∀ c ∈ a, c.md.Canon) (hn : (a.map Cell.coord).Nodup)
+    (hva : ∀ c ∈ a, c.values.WF) (hvb : ∀ c ∈ b, c.values.WF)
+    (h : periodMergeLit a b suffix = .ok out) : Spec.periodMergeSpec a b suffix out = true := by
+  rw [periodMergeLit_eq hc hn] at h
+  exact periodMergeSpec_of_periodMerge ha hva hvb h
 
 end Bermuda.Properties.C10
